@@ -43,10 +43,10 @@ env0 = dict(os.environ, PYTHONHASHSEED='0', PYTHONDONTWRITEBYTECODE='1', VERIF_T
 def apply(lib, patch):
     for cmd in (['git', '-C', lib, 'apply', patch], ['git', '-C', lib, 'apply', '--3way', patch],
                 ['patch', '-d', lib, '-p1', '-s', '-F3', '-i', patch]):
-        subprocess.run(['git', '-C', lib, 'checkout', '-q', '--', '.'])
+        subprocess.run(['git', '-C', lib, 'reset', '-q', '--hard'])       # (index too: --3way stages what it applies)
         subprocess.run(['git', '-C', lib, 'clean', '-fdq'])
         if subprocess.run(cmd, capture_output=True).returncode == 0:
-            return ' '.join(cmd[:1] + cmd[3:4]) if cmd[0] == 'git' else 'patch -F3'
+            return ' '.join(cmd[3:-1]) if cmd[0] == 'git' else 'patch -F3'
     return None
 
 
@@ -70,7 +70,7 @@ def one(job):
                 res[c] = {'exit': -1, 'violation_lines': 0, 'with_failing_input': 0, 'wall_s': 2400, 'timeout': True}
         return name, {'checks': res, 'applied_with': how}
     finally:
-        subprocess.run(['git', '-C', lib, 'checkout', '-q', '--', '.'])
+        subprocess.run(['git', '-C', lib, 'reset', '-q', '--hard'])
         subprocess.run(['git', '-C', lib, 'clean', '-fdq'])
         lane_q.put(lib)
 
